@@ -5,6 +5,7 @@ One check = (1) build the Coq development and re-check the property's theorem fi
 tree on the same generated cases, (3) judge every disagreement against the property,
 (4) report and write evidence.  See DESIGN.md sections 1-2.
 """
+import fcntl
 import hashlib
 import importlib
 import json
@@ -144,15 +145,18 @@ def gen_tie():
         h.update(f.read_bytes() if f.exists() else b"<missing>")
     key = h.hexdigest()
     WORK.mkdir(exist_ok=True)
-    cache = WORK / "gen_tie.json"
+    (WORK / "gen_tie_cache").mkdir(exist_ok=True)
+    cache = WORK / "gen_tie_cache" / (key + ".json")       # one entry per content hash of (sources, translator, models, proofs)
     if cache.exists():
         try:
             c = json.load(open(cache))
-            if c.get("key") == key and (COQ / "Gen" / "GenP.vo").exists() and (COQ / "Gen" / "GenOptP.vo").exists() and (COQ / "Gen" / "GenHdrP.vo").exists():
+            if c.get("key") == key:
                 return c["result"]
         except Exception:
             pass
     res = {"ok": False, "obligations": len(GEN_THEOREMS), "discharged": 0, "theorems": GEN_THEOREMS, "detail": ""}
+    lock = open(WORK / "gen_tie.lock", "w")
+    fcntl.flock(lock, fcntl.LOCK_EX)          # concurrent checks share coq/Gen: one translation + compile at a time
     rc, out = sh("%s %s %s %s" % (PY, VERIF / "translate" / "py2coq.py", REPO, COQ / "Gen" / "Generated.v"), 120)
     if rc != 0:
         res["detail"] = "translator: " + out.strip()[-400:]
@@ -168,51 +172,58 @@ def gen_tie():
             res["discharged"] = len(GEN_THEOREMS)
         else:
             res["detail"] = "Gen/GenP.v no longer checks (the generated definition differs from the model): " + out.strip()[-600:]
-    json.dump({"key": key, "result": res}, open(cache, "w"))
+    if res["ok"]:                             # failures are recomputed on every run
+        json.dump({"key": key, "result": res}, open(cache, "w"))
+    lock.close()
     return res
 
 
 IMP_SOURCES = ["pyp0f/impersonate/tcp.py", "pyp0f/impersonate/utils.py", "pyp0f/net/layers/tcp/flags.py", "pyp0f/net/layers/tcp/options.py", "pyp0f/net/quirks.py",
                "pyp0f/database/signatures/tcp.py", "pyp0f/database/parse/wildcard.py", "pyp0f/net/layers/ip.py"]
 IMP_THEOREMS = ["gen_impersonate_ip_eq", "gen_impersonate_options_eq", "gen_impersonate_window_eq", "gen_impersonate_payload_eq", "gen_impersonate_eq",
-                "parsed_wsize_ok"]
+                "parsed_wsize_ok", "C05_translated_code_sound", "C05_translated_code_no_raise", "C14_translated_options"]
 
 
 def gen_tie_imp():
     """Second translator: pyp0f/impersonate/tcp.py -> Gallina in the random-tape monad (translate/imp2coq.py), proved equal to the
     hand-written impersonation model (coq/Gen/GenImpP.v).  Cached like gen_tie()."""
     h = hashlib.sha1()
-    files = [REPO / f for f in IMP_SOURCES] + [VERIF / "translate" / "imp2coq.py", COQ / "Gen" / "GenImpP.v", COQ / "Model" / "Imperson.v", COQ / "Model" / "Sig.v",
+    files = [REPO / f for f in IMP_SOURCES] + [VERIF / "translate" / "imp2coq.py", COQ / "Gen" / "GenImpP.v", COQ / "Gen" / "GenImpC.v", COQ / "Proofs" / "ImpSoundP.v", COQ / "Model" / "Imperson.v", COQ / "Model" / "Sig.v",
                                                COQ / "Model" / "Bits.v", COQ / "Model" / "SigParse.v", COQ / "Proofs" / "SigTextP.v"]
     for f in files:
         h.update(f.read_bytes() if f.exists() else b"<missing>")
     key = h.hexdigest()
     WORK.mkdir(exist_ok=True)
-    cache = WORK / "gen_tie_imp.json"
+    (WORK / "gen_tie_cache").mkdir(exist_ok=True)
+    cache = WORK / "gen_tie_cache" / ("imp-" + key + ".json")
     if cache.exists():
         try:
             c = json.load(open(cache))
-            if c.get("key") == key and (COQ / "Gen" / "GenImpP.vo").exists():
+            if c.get("key") == key:
                 return c["result"]
         except Exception:
             pass
     res = {"ok": False, "obligations": len(IMP_THEOREMS), "discharged": 0, "theorems": IMP_THEOREMS, "detail": ""}
+    lock = open(WORK / "gen_tie.lock", "w")
+    fcntl.flock(lock, fcntl.LOCK_EX)
     rc, out = sh("%s %s %s %s" % (PY, VERIF / "translate" / "imp2coq.py", REPO, COQ / "Gen" / "GeneratedImp.v"), 120)
     if rc != 0:
         res["detail"] = "translator: " + out.strip()[-400:]
     else:
         for ext in (".vo", ".vok", ".vos", ".glob"):
-            for n in ("GeneratedImp", "GenImpP"):
+            for n in ("GeneratedImp", "GenImpP", "GenImpC"):
                 q = COQ / "Gen" / (n + ext)
                 if q.exists():
                     q.unlink()
-        rc, out = sh("timeout 600 coqc -Q . PV Gen/GeneratedImp.v && timeout 1200 coqc -Q . PV Gen/GenImpP.v", 1900, cwd=COQ)
+        rc, out = sh("timeout 600 coqc -Q . PV Gen/GeneratedImp.v && timeout 1200 coqc -Q . PV Gen/GenImpP.v && timeout 600 coqc -Q . PV Gen/GenImpC.v", 2500, cwd=COQ)
         if rc == 0 and out.count("Closed under the global context") == len(IMP_THEOREMS):
             res["ok"] = True
             res["discharged"] = len(IMP_THEOREMS)
         else:
             res["detail"] = "Gen/GenImpP.v no longer checks (the generated definition differs from the model): " + out.strip()[-600:]
-    json.dump({"key": key, "result": res}, open(cache, "w"))
+    if res["ok"]:                             # failures are recomputed on every run
+        json.dump({"key": key, "result": res}, open(cache, "w"))
+    lock.close()
     return res
 
 
